@@ -23,6 +23,10 @@ QUICK_SHARDS = 4
 
 ebb_calc = sut.load("ebb_calc")
 ebb_motion = sut.load("ebb_motion")
+OPTION_PROBES = [(ebb_calc.move_dist_lt, ["rate", "accel", "time", "accum"], [1000, 5, 20]),
+                 (ebb_motion.moveDistLM, ["rate_in", "accel_in", "time_ticks"], [1000, 5, 20]),
+                 (ebb_motion.moveDistLMA, ["rate_in", "accel_in", "time_ticks", "accum_in"], [1000, 5, 20, 7])]
+
 
 
 def body(ctx, case):
